@@ -484,6 +484,16 @@ def json_value_inner(n):
 def json_sets(fn):
     """[{obj, key, keynode, value, node}] for every `obj[key] = value` / `obj.insert(key, value)` on a local QJsonObject"""
     out = []
+
+    def inner(v):
+        # the value of a spliced helper with one return is what that return yields (`event["extra"] = buildExtra(lmsg)` with `return extra;`)
+        v = json_value_inner(v)
+        for _ in range(4):
+            if isinstance(v, dict) and v.get("k") == "call" and v.get("inl_value") is not None and v["inl_value"] in fn.nodes:
+                v = json_value_inner(fn.nodes[v["inl_value"]])
+            else:
+                break
+        return v
     for n in sorted(fn.all_nodes(), key=lambda n: n["id"]):
         if n.get("k") != "call":
             continue
@@ -492,11 +502,11 @@ def json_sets(fn):
             if isinstance(lhs, dict) and lhs.get("k") == "call" and lhs.get("op") == "[]" and (lhs.get("cls") or "") in ("QJsonObject",):
                 o = skip_copies(lhs["args"][0])
                 out.append({"obj": o.get("decl") if o.get("k") in ("ref", "member") else None, "key": const_str(lhs["args"][1]), "keynode": lhs["args"][1],
-                            "value": json_value_inner(n["args"][1]), "node": n})
+                            "value": inner(n["args"][1]), "node": n})
         elif n.get("ck") == "member" and name_is(n.get("callee"), "QJsonObject::insert") and len(n.get("args", [])) == 2:
             o = skip_copies(n.get("obj"))
             out.append({"obj": o.get("decl") if o.get("k") in ("ref", "member") else None, "key": const_str(n["args"][0]), "keynode": n["args"][0],
-                        "value": json_value_inner(n["args"][1]), "node": n})
+                        "value": inner(n["args"][1]), "node": n})
     return out
 
 
